@@ -390,7 +390,10 @@ def pullTombs (src : Site) (c : Cell) (a : PullAcc) : PullAcc :=
       modified := true, orig := a.orig }
 
 def pullRows (src : Site) (c : Cell) (a : PullAcc) : PullAcc :=
-  let cand := src.rows.filter fun r => r.room = c.room && r.ent = c.ent && r.day = c.day
+  -- /repo ffeda5d (`filter_deleted_in_room`): an announced id that carries a deletion record of the synchronised room at the
+  -- destination — the records of this day have been applied just before — is not requested
+  let cand := src.rows.filter fun r => r.room = c.room && r.ent = c.ent && r.day = c.day &&
+    !(a.dst.tombs.any fun t => t.n = r.n && t.room = c.room)
   let fetched := cand.filter fun r =>
     match findRow r.n a.dst.rows with
     | none => true
